@@ -111,8 +111,8 @@ def parse(res):
         res.error = "assert"
     elif re.search(r"Error: The postcondition", out) or "Postcondition" in out and "violated" in out:
         res.error = "postcondition"
-    elif "Error:" in out:
-        idx = out.index("Error:")
+    elif re.search(r"^Error:", out, re.M):
+        idx = re.search(r"^Error:", out, re.M).start()
         res.error = "other:" + out[idx:idx + 600]
     elif res.timed_out:
         # a simulation or an oversized BFS stopped by the outer time limit is not an error
